@@ -86,3 +86,17 @@ Definition run_enum (w : world) (dbs : list string) (auths : list (option string
   let w' : world := (admin, primary, max, (h ++ [ORestart])%list) in
   let f st := map (fun p => handle hverify GT st (mk_req POST (fst p) (snd p) CtJson (BOk "info"))) (grid dbs auths) in
   (run_history_results w', f (state_of w), f (state_of w')).
+
+(* the same comparison with the worlds and the request bodies passed once (by index) instead of once per cell *)
+Definition cell_ix : Type := nat * verb * list string * option string * ctype * list (nat * obs).
+Definition check_cell_ix (ws : list world) (bs : list body) (x : cell_ix) : bool :=
+  let '(wi, v, path, auth, ct, l) := x in
+  match nth_error ws wi with
+  | None => false
+  | Some w =>
+    let st := state_of w in
+    forallb (fun io => match nth_error bs (fst io) with
+                       | None => false
+                       | Some b => matches (handle hverify GT st (mk_req v path auth ct b)) (snd io)
+                       end) l
+  end.
